@@ -144,6 +144,7 @@ structure St where
   count : Nat := 0              -- the u32 the statement reports
   overlayNodes : List (Nat × List String × Props) := []      -- MergeOverlayState.nodes
   overlayEdges : List (RelId × Props) := []                  -- MergeOverlayState.edges
+  interned : List String := []      -- names passed to get_or_create_label_id / _rel_type_id without a write
 
 /-- a materialised `Value::Node` / `Value::Relationship` held by a row -/
 structure Ent where
@@ -496,7 +497,7 @@ def mergeRow (g : Graph) (next : Nat) (pat : PathPat) (onC onM : List SetItem) (
     let dp ← mergeProps A params g u dn.props
     let rprops ← mergeProps A params g u rp.props
     let some ty := rp.types.head? | throw .other
-    let mut s := s
+    let mut s := { s with interned := s.interned ++ [ty] }
     let mut sc := match sn.var.bind (rowNode u.row) with | some n => [n] | none => []
     if sc.isEmpty then sc := findCandidates g s sn.labels sp
     if sc.isEmpty then
@@ -596,7 +597,11 @@ def runStage (g : Graph) (next : Nat) (names : List String) (w : WPlan) (s : St)
   | .delete d vars => do return (← deleteRows g d vars s T, T)
 
 /-- `execute_mixed` on a write plan: (ops, nodes created, reported count) -/
-def runStmt (g : Graph) (next : Nat) (names : List String) (stmt : Stmt) : Except Err (List TxOp × Nat × Nat) := do
+def opNames : TxOp → List String
+  | .createNode _ ls => ls | .addLabel _ l => [l] | .createEdge r => [r.typ] | _ => []
+
+def runStmt (g : Graph) (next : Nat) (names : List String) (stmt : Stmt) :
+    Except Err (List TxOp × Nat × Nat × List String) := do
   let w ← compileStmt stmt
   let T ← Exec.exec A { g, params } w.input
   let mut s : St := {}
@@ -604,11 +609,12 @@ def runStmt (g : Graph) (next : Nat) (names : List String) (stmt : Stmt) : Excep
   for st in w.stages do
     let (s', T') ← runStage A params g next names w s T st
     s := s'; T := T'
-  return (s.ops, s.created, s.count)
+  return (s.ops, s.created, s.count, (names ++ s.interned ++ s.ops.flatMap opNames).eraseDups)
 
-/-- the statement as a graph transformer: snapshot → committed graph, next id, reported count -/
-def step (g : Graph) (next : Nat) (names : List String) (stmt : Stmt) : Except Err (Graph × Nat × Nat) := do
-  let (ops, created, count) ← runStmt A params g next names stmt
-  return (applyOps g ops, next + created, count)
+/-- the statement as a graph transformer: snapshot → committed graph, next id, reported count, interned names -/
+def step (g : Graph) (next : Nat) (names : List String) (stmt : Stmt) :
+    Except Err (Graph × Nat × Nat × List String) := do
+  let (ops, created, count, names') ← runStmt A params g next names stmt
+  return (applyOps g ops, next + created, count, names')
 
 end Nervus.Cy.Update
